@@ -3,12 +3,11 @@ import NauyacaVerif.Cl.Client
 namespace NauyacaVerif.Drv.ClientD
 open NauyacaVerif.Drv Cl
 
-/-! `client <decodeText:0|1> <utf8:0|1> <int:n|none> <text:0|1> <dec:n> <ev>*`   (C13)
+/-! `client <decodeText:0|1> <utf8:0|1> <text:0|1> <dec:n> <ev>*`   (C13)
 
-    The four oracle words say what the Python library functions do on THIS case (the harness computes
-    them): does the header line decode as UTF-8, what does `int()` return for the status token, is the
-    meta text/*, what does `bytes.decode(charset)` do on the body (0 ok, 1 UnicodeDecodeError,
-    2 LookupError, 3 another exception).
+    The three oracle words say what the Python library functions do on THIS case (the harness computes
+    them): does the header line decode as UTF-8, is the meta text/*, what does `bytes.decode(charset)`
+    do on the body (0 ok, 1 UnicodeDecodeError, 2 LookupError, 3 another exception).
     ev     ::= `d:<piece>+<piece>…` | `l:0` | `l:1`         read / connection_lost(None) / connection_lost(exc)
     piece  ::= `<hex>` | `*<byte>*<count>`                  literal bytes / a run of one byte
     output ::= `ok <fut> closed=<0|1>`
@@ -51,19 +50,13 @@ def showFut : Fut → String
 
 def parseBit (s : String) : Option Bool := if s == "1" then some true else if s == "0" then some false else none
 
-def parseIntOpt (s : String) : Option (Option Int) :=
-  if s == "none" then some none
-  else match s.toInt? with
-    | some n => some (some n)
-    | none => none
-
 def handle : List String → Option String
-  | "client" :: dt :: utf8 :: int :: text :: dec :: evs =>
-    match parseBit dt, parseBit utf8, parseIntOpt int, parseBit text, dec.toNat?, evs.mapM parseEv with
-    | some dtb, some u, some n, some t, some d, some es =>
-      let env : Env := ⟨fun _ => u, fun _ => n, fun _ => t, fun _ _ => d⟩
+  | "client" :: dt :: utf8 :: text :: dec :: evs =>
+    match parseBit dt, parseBit utf8, parseBit text, dec.toNat?, evs.mapM parseEv with
+    | some dtb, some u, some t, some d, some es =>
+      let env : Env := ⟨fun _ => u, fun _ => t, fun _ _ => d⟩
       let s := crunFrom env (init dtb) es
       some s!"ok {showFut s.fut} closed={if s.closeReq then 1 else 0}"
-    | _, _, _, _, _, _ => some "bad-op"
+    | _, _, _, _, _ => some "bad-op"
   | _ => none
 end NauyacaVerif.Drv.ClientD
